@@ -1749,7 +1749,7 @@ Proof.
   intros ci fi g t t' H E. unfold on_file in H. eapply on_change_neq; eauto.
   intros c c' N G. cbv beta in G. destruct (upd_nth fi g (c_files c)) as [r|] eqn:U; try discriminate.
   inv_bind G. injection G as <-. subst r. unfold change_eq. cbn.
-  rewrite (list_eq2_upd file_eq _ _ _ _ U (E c N)). apply andb_false_r.
+  rewrite (list_eq2_upd file_eq _ _ _ _ U (fun f f' => E c f f' N)). apply andb_false_r.
 Qed.
 
 Theorem C19_perturb_option : forall p s k new t t' o,
@@ -1878,7 +1878,7 @@ Qed.
 Definition wit_order (o : dopts) : dtree :=
   {| d_opts := d_opts new_tree; d_pre := new_psec; d_meta := new_msec;
      d_changes := [ {| c_opts := []; c_pre := new_psec; c_meta := new_msec;
-                       c_files := [ {| f_opts := []; f_meta := new_msec;
+                       c_files := [ {| f_opts := []; f_meta := {| m_opts := m_opts new_msec; m_content := [(skey "path", JStr (skey "a"))] |};
                                        f_diff := {| x_opts := o; x_content := Some (B "xyz") |} |} ] |} ] |}.
 Theorem C19_eq_bytes_refuted_order : exists a b ba bb,
   tree_eq a b = true /\ dom_write a = Ok ba /\ dom_write b = Ok bb /\ ba <> bb.
@@ -1887,3 +1887,50 @@ Proof.
          (wit_order [(B "diff_type", S_ "binary"); (B "type", S_ "text")]). eexists. eexists.
   split; [vm_compute; reflexivity|]. split; [vm_compute; reflexivity|]. split; [vm_compute; reflexivity|]. discriminate.
 Qed.
+
+(* ================================================================================================ *)
+(* concrete instances used by the Examples in props/C13.v, C18.v, C19.v                              *)
+(* ================================================================================================ *)
+Definition ln (s : String.string) : bytes := B s ++ [x0a].
+(* a unified diff with one hunk: 1 context line, 1 deletion, 2 insertions *)
+Definition ex_diff : bytes :=
+  ln "--- a" ++ ln "+++ b" ++ ln "@@ -1,2 +1,3 @@" ++ ln " ctx" ++ ln "-old" ++ ln "+new" ++ ln "+new2".
+(* a text file whose metadata already has a 'stats' dict with a custom key and a stale figure *)
+Definition ex_file1 : dfile :=
+  {| f_opts := [];
+     f_meta := {| m_opts := m_opts new_msec;
+                  m_content := [(skey "path", JStr (skey "a"));
+                                (skey "stats", JObj [(skey "custom", JInt 7); (skey "insertions", JInt 99)])] |};
+     f_diff := {| x_opts := []; x_content := Some ex_diff |} |}.
+(* a binary file *)
+Definition ex_file2 : dfile :=
+  {| f_opts := []; f_meta := {| m_opts := m_opts new_msec; m_content := [(skey "path", JStr (skey "b"))] |};
+     f_diff := {| x_opts := [(B "type", S_ "binary")]; x_content := Some (B "xyz") |} |}.
+Definition ex_change : dchange := {| c_opts := []; c_pre := new_psec; c_meta := new_msec; c_files := [ex_file1; ex_file2] |}.
+Definition ex_tree : dtree := {| d_opts := d_opts new_tree; d_pre := new_psec; d_meta := new_msec; d_changes := [ex_change] |}.
+
+Definition ex_file1_stats : list (text * json) :=
+  [(skey "custom", JInt 7); (skey "insertions", JInt 2); (skey "deletions", JInt 1); (skey "lines changed", JInt 3)].
+Definition ex_change_stats : list (text * json) :=
+  [(skey "deletions", JInt 1); (skey "files", JInt 2); (skey "insertions", JInt 2); (skey "lines changed", JInt 3)].
+Definition ex_tree_stats : list (text * json) :=
+  [(skey "changes", JInt 1); (skey "deletions", JInt 1); (skey "files", JInt 2); (skey "insertions", JInt 2);
+   (skey "lines changed", JInt 3)].
+Definition ex_tree_out : dtree :=
+  {| d_opts := d_opts new_tree; d_pre := new_psec;
+     d_meta := {| m_opts := m_opts new_msec; m_content := [(stats_key, JObj ex_tree_stats)] |};
+     d_changes :=
+       [ {| c_opts := []; c_pre := new_psec;
+            c_meta := {| m_opts := m_opts new_msec; m_content := [(stats_key, JObj ex_change_stats)] |};
+            c_files := [ {| f_opts := [];
+                            f_meta := {| m_opts := m_opts new_msec;
+                                         m_content := [(skey "path", JStr (skey "a")); (stats_key, JObj ex_file1_stats)] |};
+                            f_diff := f_diff ex_file1 |};
+                         ex_file2 ] |} ] |}.
+
+(* an operation sequence over three live trees *)
+Definition ex_ops : list op :=
+  [ONew []; ONew [(B "encoding", S_ "latin1")]; OAddChange 0 []; OAddFile 0 0 [(B "diff", WBytes ex_diff)];
+   OSet 1 PMain (B "version") (S_ "9.9");        (* raises: not a valid choice *)
+   OAddChange 1 [(B "bogus", WInt 1)];            (* raises: unknown attribute *)
+   OMetaPut 0 (PFile 0 0) (skey "path") (JStr (skey "a")); OStats 0; OToBytes 0; OEq 0 1; OToBytes 0].
